@@ -245,3 +245,38 @@ func init() {
 		s.obs("fetchk %d %d %d %d [%s]", ts.FromTime(), ts.UntilTime(), ts.Step(), len(ts.Values()), strings.Join(known, " "))
 	})
 }
+
+func init() {
+	// tsapi F U S n v.. | F U S n v.. : the library's comparison API on two series (timeseries.go)
+	register("tsapi", func(s *sess, tk []string) {
+		bar := -1
+		for i, t := range tk {
+			if t == "|" {
+				bar = i
+			}
+		}
+		mk := func(t []string) *wt.TimeSeries {
+			var vs []wt.Value
+			for _, x := range t[4:] {
+				vs = append(vs, hexv(x))
+			}
+			return wt.NewTimeSeries(wt.Timestamp(atoi(t[0])), wt.Timestamp(atoi(t[1])), wt.Duration(int32(atoi(t[2]))), vs)
+		}
+		a, b := mk(tk[1:bar]), mk(tk[bar+1:])
+		show := func(p, q wt.Points) string {
+			f := func(pp wt.Points) string {
+				var ss []string
+				for _, x := range pp {
+					ss = append(ss, fmt.Sprintf("%d:%s", uint32(x.Time), showVal(x.Value)))
+				}
+				return "[" + strings.Join(ss, " ") + "]"
+			}
+			return f(p) + "|" + f(q)
+		}
+		d1, d2 := a.DiffPoints(b)
+		x1, x2 := a.DiffPointsExcludeSrcNaN(b)
+		p, q := wt.Points(a.Points()), wt.Points(b.Points())
+		pd1, pd2 := p.Diff(q)
+		s.obs("tsapi eqrs=%v equal=%v diff=%s diffx=%s peq=%v pdiff=%s", a.EqualTimeRangeAndStep(b), a.Equal(b), show(d1, d2), show(x1, x2), p.Equal(q), show(pd1, pd2))
+	})
+}
